@@ -11,7 +11,7 @@ RULE = ('seeded cases: operation in {merge, 3-ary merge, embed, forwards, mask, 
         'compiled eagerly and with from __future__ import annotations. source_value() of every retrieved input is compared with '
         'the object the spelling denotes in the defining globals; evaluated() of the postponed result with the eager result '
         '(identity of annotation objects); modifiers.annotate values (objects, strings, ints, tuples) come back verbatim, also '
-        'under a stacked kwoargs. Non-trivial: a case whose operation returned on both twins; distinct by (operation, globals, '
+        'under a stacked kwoargs, and for a modifiers-wrapped method through every view of it (class attribute, a method object kept from before annotate was applied, fresh ones, a partial over the kept one). Non-trivial: a case whose operation returned on both twins; distinct by (operation, globals, '
         'annotated parameter lists, arguments).')
 ASSUMPTIONS = ['annotation objects are compared by identity', 'methods of one class necessarily share globals; the different-globals configurations apply to the function forms']
 
